@@ -32,6 +32,18 @@ func genCase(cr *vh.Rng) *gqlgen.Case {
 		pd = 10
 	}
 	c.Query = gqlgen.GenQuery(cr, spec, gqlgen.QOpts{PDir: pd, Depth: 2 + cr.Intn(3), AllowDup: true})
+	if cr.Chance(9) {
+		// wide fan-out: a root list of 64..300 objects, function fields one to three levels below every
+		// element, and a mode assignment in which those fields run as many work units
+		n := 64 + cr.Intn(237)
+		if cr.Chance(50) {
+			n = 64 + cr.Intn(60)
+		}
+		c.Data = gqlgen.GenDataWide(cr, spec, 0, "Query.r0", n)
+		c.Query = gqlgen.GenQueryWide(cr, spec, gqlgen.QOpts{PDir: 0, Depth: 1 + cr.Intn(2), AllowDup: true}, "r0")
+		c.Modes[0] = gqlgen.FanOutModes(cr, spec)
+		c.Origin = "generated:wide"
+	}
 	for k := 0; k < 3; k++ {
 		var ch []int
 		for i := 0; i < 24; i++ {
@@ -124,7 +136,11 @@ func main() {
 		start = end
 	}
 
+	hung := 0
 	for idx, c := range cases {
+		if hung >= 2 {
+			break // the implementation hangs: two cases are enough, every further one costs a deadline
+		}
 		run.LogCase(idx, c)
 		q := c.Query
 		text := q.Text()
@@ -187,6 +203,12 @@ func main() {
 					fail("re-execution-differs", fmt.Sprintf("modes#%d/%s: first %s\n%s\nquery: %s", mi, sc.name, js(obs.JSON), obs.Reexec, text), c)
 				}
 				tag := fmt.Sprintf("modes#%d/%s", mi, sc.name)
+				if obs.Stage == "harness" && obs.Class == "timeout" {
+					fail("execute-does-not-return", fmt.Sprintf("%s: %s\nquery: %s\n%d data objects", tag, obs.Text, text, len(c.Data.ByOid)), c)
+					hung++
+					bad = true
+					break
+				}
 				if obs.Stage == "harness" {
 					run.Fail(idx, "escaped-panic-or-timeout", tag+": "+obs.String(), c)
 					bad = true
@@ -268,6 +290,12 @@ func main() {
 		run.Count(text+"|"+js(c.Data)+"|"+js(c.Modes), nontrivial)
 		if first != nil && first.OK {
 			run.Sample(map[string]interface{}{"query": text, "result": first.JSON, "modes": c.Modes[0]})
+		}
+		if strings.HasPrefix(c.Origin, "generated:wide") {
+			run.Hist("wide-fan-out")
+		}
+		if len(c.Data.ByOid) > 150 {
+			continue // oracle only: the model's evaluation (lists for heaps and pools) is quadratic in the size
 		}
 		terms = append(terms, fmt.Sprintf("(%d, %s)", idx, gqlgen.CoqCase(schemas, c.Data, q.Eff(), []string{gqlgen.CoqQuery(q)}, runs)))
 		if len(terms) >= shard {
